@@ -102,7 +102,7 @@ def make(client, history, cfg_push):
                     e = evs[0]
                     check(e.parent_stream_id == parent and e.pushed_stream_id == promised,
                           'pushed-event-ids', (e.parent_stream_id, e.pushed_stream_id))
-                    check([tuple(x) for x in e.headers] == [tuple(x) for x in h2h.REQ],
+                    check([tuple(x) for x in e.headers] == [tuple(x) for x in h2h.REQ_PUSHED],
                           'pushed-event-headers', e.headers)
                 # the promised stream only carries a response
                 o2 = ops.run_op(ctx, ('HEADERS', promised, 'req', False), symbolic=True)
